@@ -79,6 +79,8 @@ def tab_if_space(p):
 def section_lines(s, fmt):
     a, b, pa, pb = s.old, s.new, s.pa, s.pb
     k = s.kind
+    if k == 'binary_bare':
+        return ['Binary files old/%s and new/%s differ' % (a, a)]
     if fmt == 'plain':
         L = ['--- %s\t2020-01-01 00:00:00.000000000 +0000' % a, '+++ %s\t2020-01-02 00:00:00.000000000 +0000' % b]
     elif k == 'submodule_log':
@@ -127,6 +129,8 @@ def expected_header(s, fmt, labels, arrow):
     k = s.kind
     if k == 'submodule_log':
         return 'Submodule %s 1234567..89abcde:' % s.old
+    if k == 'binary_bare':
+        return 'Binary files old/%s and new/%s differ' % (s.old, s.old)
     if fmt == 'plain':
         return '%s%s %s %s' % (lab(labels['modified']), s.old, arrow, s.new)
     mode = ''
@@ -165,7 +169,7 @@ def run_item(item):
     pa, pb = rng.choice(PREFIX_PAIRS)
     secs = []
     for i in range(n):
-        kind = 'modified' if fmt == 'plain' else rng.choice(kinds_all)
+        kind = rng.choice(['modified'] * 4 + ['binary_bare']) if fmt == 'plain' else rng.choice(kinds_all)
         secs.append(make_section(rng, kind, i, pa, pb))
     opts = gen.tagged_styles()
     opts['--paging'] = 'never'
@@ -229,6 +233,14 @@ def run_item(item):
         if pos >= len(infos):
             return bad('header-missing:' + s.kind, 'file header of section %d (%s) is missing' % (si, s.kind), exp, 'end of output')
         info = infos[pos]
+        if s.kind == 'binary_bare':
+            # diff -r prints the line bare between sections; shown as a header-like row or passed through
+            got = info.text if info.kind != 'file' else ''.join(c.ch for c in info.row.cells if gen.TAG_BY_RGB.get(c.fg) == 'file')
+            if norm(got) != norm(exp):
+                return bad('header-missing:' + s.kind, 'the line of diff -r output reporting two binary files is missing', exp, info.text[:200])
+            counters['file_headers'] += 1
+            pos += 1
+            continue
         if s.kind == 'binary_noindex':
             if info.kind == 'file':
                 return bad('header-text:' + s.kind, 'a binary section with two different paths gets a file header naming another file', exp, info.text[:200])
